@@ -16,12 +16,24 @@ import os
 
 import lexmodel
 import lextrace
+import driverprops
 import observe
 import extract
 from evidence import Run, known_keys
 from common import REPO, rng
 
 LAW = {"C05": "c05", "C09": "c09", "C10": "c10"}
+
+
+def _replay_chunk(exports):
+    out = []
+    for rec in exports:
+        text, toks, diags, mode = lexmodel.norm_export(rec)
+        o = observe.lex(text)
+        otoks, odiags, oexc = lexmodel.norm_observed(o)
+        ok = oexc is None and otoks == toks and odiags == diags
+        out.append((text, toks, diags, ok, None if ok else o))
+    return out
 
 
 def long_runs():
@@ -82,18 +94,17 @@ def run(pid, tier):
                 continue
             R.machinery(f"TLC {cfgname}: {b.error}")
             return R.finish()
-        for rec in exports:
-            text, toks, diags, mode = lexmodel.norm_export(rec)
-            o = observe.lex(text)
-            otoks, odiags, oexc = lexmodel.norm_observed(o)
-            R.case(text, nontrivial=bool(toks or diags))
-            if oexc is None and otoks == toks and odiags == diags:
-                R.validated()
-                if len(toks) >= 2:
-                    R.sample(dict(input=text, predicted_tokens=toks[:6], observed_equal=True))
-                continue
-            tid += 1
-            mism.append((tid, text, cfgname, toks, diags, o))
+        chunks = [exports[i:i + 4000] for i in range(0, len(exports), 4000)]
+        for part in driverprops.pool_map(_replay_chunk, chunks):
+            for (text, toks, diags, ok, o) in part:
+                R.case(text, nontrivial=bool(toks or diags))
+                if ok:
+                    R.validated()
+                    if len(toks) >= 2:
+                        R.sample(dict(input=text, predicted_tokens=toks[:6], observed_equal=True))
+                    continue
+                tid += 1
+                mism.append((tid, text, cfgname, toks, diags, o))
     # the deterministic long-run family (C05 only) and its known-finding representatives
     extra = []
     if pid == "C05":
@@ -162,6 +173,9 @@ def run(pid, tier):
                          observed_tokens=[(k["t"], "".join(k["x"]), k["l"], k["c"], k["e"]) for k in tr["toks"]][:40],
                          observed_bad=tr["bad"], exc=tr["exc"],
                          predicted_tokens=m[3][:40] if m[0] == "model" else None))
+    if pid == "C05":
+        import c05pipe
+        c05pipe.run_into(R, tier)
     R.assumptions += ["TLC's exhaustiveness is for the stated alphabets and lengths (DESIGN section 7)",
                       "the observation wrapper reads Lexer._Lexer__pos (name-mangled private attribute) for raw end offsets"]
     return R.finish()
